@@ -331,6 +331,15 @@ class Ctx:
             "broken_obligations": to_jsonable(self.broken),
         })
         cov.setdefault("rule", "see module docstring")
+        # keys the evidence schema types: a module's free-form extra of the same name must not shadow them
+        typed = {"evaluations": int, "distinct_nontrivial": int, "states": int, "transitions": int,
+                 "traces_validated_against_impl": int, "obligations": int, "discharged": int, "programs": int,
+                 "disagreements_checked": int, "rule": str, "explanation": str, "checker_cmd": str,
+                 "exhaustive": bool, "samples": list, "trusted_base": list}
+        for k, t in typed.items():
+            if k in cov and (not isinstance(cov[k], t) or (t is int and isinstance(cov[k], bool))):
+                cov[k + "_detail"] = cov.pop(k)
+        cov["trusted_base"] = [str(x) for x in cov.get("trusted_base", [])]
         doc = {
             "property_id": self.prop_id,
             "tier": self.tier,
